@@ -10,6 +10,7 @@ template strings, as well as template runtime operations."""
 import contextlib
 from importlib import abc
 from importlib import machinery
+import importlib.util
 import json
 import os
 import re
@@ -847,6 +848,14 @@ def _compile_module_file(template, text, filename, outputpath, module_writer):
         with os.fdopen(dest, "wb") as fp:
             fp.write(source)
         shutil.move(name, outputpath)
+
+    # the import system trusts cached bytecode whose recorded mtime (whole
+    # seconds) and size match the source file; drop the bytecode of the
+    # module file that was just replaced
+    try:
+        os.unlink(importlib.util.cache_from_source(outputpath))
+    except (OSError, NotImplementedError, ValueError):
+        pass
 
 
 def _get_module_info_from_callable(callable_):
